@@ -291,6 +291,11 @@ pub mod gen {
             // the CLI default
             return ShapeSpec::Trimer { radius: 0.637556, angle: 120., distance: 1. };
         }
+        if rng.gen_bool(0.15) {
+            // an open molecule: small outer discs far from the central one (gaps wide enough for
+            // another molecule's disc; extent beyond 4)
+            return ShapeSpec::Trimer { radius: rng.gen_range(0.2, 0.7), angle: rng.gen_range(50., 180.), distance: rng.gen_range(2.0, 5.0) };
+        }
         ShapeSpec::Trimer {
             radius: rng.gen_range(0.2, 1.2),
             angle: rng.gen_range(30., 180.),
